@@ -190,9 +190,9 @@ theorem reported_iff_unsuppressed_gen (dfix : Bool) (env : Env) (cfg : GCfg) (no
     (fs : List Finding) (hd : cfg.emitDuplicates = true ∨ TextInj fs) (hx : ∀ s ∈ nomsg, supprExact s = true)
     (f : Finding) :
     Reported (gateG dfix env cfg nomsg nofail fs).out f ↔ f ∈ fs ∧ Spec.Passes env cfg nomsg f := by
-  rw [gateG_out, ← passes_iff env cfg nomsg f hx, ← passesEl_nil]
-  exact ⟨reported_outAcc_sound dfix env cfg nomsg fs [] f,
-         fun h => reported_outAcc_complete dfix env cfg nomsg fs [] hd f h.1 h.2⟩
+  rw [gateG_out, ← passes_iff env cfg nomsg f hx, ← passesEl_nil dfix]
+  exact ⟨reported_outAcc_sound dfix env cfg nomsg fs ([], []) f,
+         fun h => reported_outAcc_complete dfix env cfg nomsg fs ([], []) hd f h.1 h.2⟩
 
 /-- … for the current code -/
 theorem reported_iff_unsuppressed (env : Env) (cfg : GCfg) (nomsg nofail : List Suppr) (fs : List Finding)
@@ -230,7 +230,7 @@ theorem reported_sound (dfix : Bool) (env : Env) (cfg : GCfg) (nomsg nofail : Li
     (hx : ∀ s ∈ nomsg, supprExact s = true) (f : Finding)
     (h : Reported (gateG dfix env cfg nomsg nofail fs).out f) : f ∈ fs ∧ Spec.Passes env cfg nomsg f := by
   rw [gateG_out] at h
-  have := reported_outAcc_sound dfix env cfg nomsg fs [] f h
+  have := reported_outAcc_sound dfix env cfg nomsg fs ([], []) f h
   rw [passesEl_nil, passes_iff env cfg nomsg f hx] at this
   exact this
 
@@ -248,25 +248,49 @@ theorem reported_duptext_counterexample :
     (gateG true env {} nomsg [] [f3, f4]).out = [{ f := f4 }] := by
   decide
 
-/-- THE PROPERTY without any hypothesis on the renderings (code since 9e24c55): the rendering of every finding of the
-    run that passes by the documented rules is forwarded, carried by a passing finding of the run (two unsuppressed
-    findings with one rendering are still printed once — that is what the duplicate filter is for) -/
+/-- some entry of the whole `nomsg` list (global entries included) matches the finding by the documented rules -/
+def Spec.SuppressedByAll (env : Env) (cfg : GCfg) (nomsg : List Suppr) (f : Finding) : Prop :=
+  ∃ s ∈ nomsg, Spec.active true (toMsg env cfg f) s = true ∧ Spec.matchesB env s (toMsg env cfg f) = true
+
+theorem laterB_iff (env : Env) (cfg : GCfg) (nomsg : List Suppr) (f : Finding) (hx : ∀ s ∈ nomsg, supprExact s = true) :
+    laterB env cfg nomsg f = true ↔ Spec.SuppressedByAll env cfg nomsg f := by
+  unfold laterB Spec.SuppressedByAll
+  rw [anyMatch_iff]
+  constructor
+  · rintro ⟨s, hs, h1, h2⟩
+    exact ⟨s, hs, h1, (isSuppressed_matched_iff env s _ (hx s hs)).1 h2⟩
+  · rintro ⟨s, hs, h1, h2⟩
+    exact ⟨s, hs, h1, (isSuppressed_matched_iff env s _ (hx s hs)).2 h2⟩
+
+/-- THE PROPERTY without any hypothesis on the renderings (current code: two duplicate filters, /repo 9e24c55 + 9907ad7):
+    the rendering of every finding of the run that passes by the documented rules is forwarded, carried by a passing
+    finding of the run (two unsuppressed findings with one rendering are still printed once — that is what the
+    duplicate filter is for).  When the logger runs without the global suppressions (a worker of a parallel run) the
+    statement is about the findings the executor will not drop afterwards: `hg`. -/
 theorem reported_texts_fixed (env : Env) (cfg : GCfg) (nomsg nofail : List Suppr) (fs : List Finding)
-    (hx : ∀ s ∈ nomsg, supprExact s = true) (f : Finding) (hm : f ∈ fs) (hp : Spec.Passes env cfg nomsg f) :
+    (hx : ∀ s ∈ nomsg, supprExact s = true) (f : Finding) (hm : f ∈ fs) (hp : Spec.Passes env cfg nomsg f)
+    (hg : cfg.useGlobal = true ∨ ¬ Spec.SuppressedByAll env cfg nomsg f) :
     ∃ g ∈ fs, g.text = f.text ∧ Spec.Passes env cfg nomsg g ∧ Reported (gateG true env cfg nomsg nofail fs).out g := by
   rw [gateG_out]
-  have hp' : passesEl env cfg nomsg [] f = true := by
+  have hp' : passesEl env cfg nomsg (relOf true env cfg nomsg ([], []) f) f = true := by
     rw [passesEl_nil]; exact (passes_iff env cfg nomsg f hx).2 hp
-  obtain ⟨g, hg, hgt, hgr⟩ := reported_outAcc_texts env cfg nomsg fs [] f hm hp'
-  have := reported_outAcc_sound true env cfg nomsg fs [] g hgr
+  have hnl : (!cfg.useGlobal && laterB env cfg nomsg f) = false := by
+    rcases hg with hg | hg
+    · simp [hg]
+    · cases hb : laterB env cfg nomsg f with
+      | false => simp
+      | true => exact absurd ((laterB_iff env cfg nomsg f hx).1 hb) hg
+  obtain ⟨g, hg', hgt, hgr⟩ := reported_outAcc_texts env cfg nomsg fs ([], []) f hm hnl hp'
+  have := reported_outAcc_sound true env cfg nomsg fs ([], []) g hgr
   rw [passesEl_nil, passes_iff env cfg nomsg g hx] at this
-  exact ⟨g, hg, hgt, this.2, hgr⟩
+  exact ⟨g, hg', hgt, this.2, hgr⟩
 
 /-- … stated for the current code -/
 theorem reported_texts (env : Env) (cfg : GCfg) (nomsg nofail : List Suppr) (fs : List Finding)
-    (hx : ∀ s ∈ nomsg, supprExact s = true) (f : Finding) (hm : f ∈ fs) (hp : Spec.Passes env cfg nomsg f) :
+    (hx : ∀ s ∈ nomsg, supprExact s = true) (f : Finding) (hm : f ∈ fs) (hp : Spec.Passes env cfg nomsg f)
+    (hg : cfg.useGlobal = true ∨ ¬ Spec.SuppressedByAll env cfg nomsg f) :
     ∃ g ∈ fs, g.text = f.text ∧ Spec.Passes env cfg nomsg g ∧ Reported (gate env cfg nomsg nofail fs).out g :=
-  reported_texts_fixed env cfg nomsg nofail fs hx f hm hp
+  reported_texts_fixed env cfg nomsg nofail fs hx f hm hp hg
 
 /-- `--exitcode-suppressions` entries never hide anything: the forwarded findings do not depend on the `nofail` list -/
 theorem nofail_does_not_hide (env : Env) (cfg : GCfg) (nomsg nofail nofail' : List Suppr) (fs : List Finding) :
